@@ -22,6 +22,9 @@ THEOREMS = [
     "C37.repeat_value_n",
     "C37.repeat_value_forever",
     "C37.sim_eq_chain_quiet",
+    "C37.sim_eq_chainSpin",
+    "C37.sim_values_prefix_of_chain",
+    "C37.factories_wellformed",
     "C37.gwrt_asis_zero_delay_counter",
 ]
 RULE = ("each factory subscribed at a generated virtual time on a TestScheduler and disposed at a generated time: integer ranges "
@@ -492,5 +495,6 @@ LEVEL_TEXT = ("Lean theorems on the producers that mirror the factories action b
               "spin limit) against the compiled model and a plain-Python oracle.")
 LEVEL_NOTE = ("generate_with_relative_time is modelled as repaired by fixes/C37_gwrt_zero_delay.patch (the pinned tree asserts on a falsy delay; "
               "counter-example theorem gwrt_asis_zero_delay_counter on the as-is model). sim_eq_chain_quiet proves that the scheduler simulation equals the "
-              "chain for runs without a dispose cut and below the scheduler's 100-item spin limit; beyond that the simulation is tied to the code "
-              "by correspondence only. Delays are whole seconds; timer with a period / absolute due time belongs to C35.")
+              "chain for runs without a dispose cut and below the scheduler's 100-item spin limit; beyond that (dispose cut, spin limit) sim_eq_chainSpin gives the exact "
+              "scheduler-aware chain and sim_values_prefix_of_chain shows the recorded notifications are a prefix of the chain's; the scheduler model itself is "
+              "tied to the code by correspondence. Delays are whole seconds; timer with a period / absolute due time belongs to C35.")
